@@ -28,8 +28,8 @@ def frame(rng, target, kind=None, size=None):
     is_call = target.startswith("call_")
     if kind is None:
         kind = rng.choices(
-            ["valid", "valid_big", "wrong_shape", "malformed", "padded", "garbage", "escaped", "flags"],
-            [30, 12, 12, 10, 14, 6, 8, 8])[0]
+            ["valid", "valid_big", "wrong_shape", "malformed", "padded", "garbage", "escaped", "flags", "near_blank"],
+            [30, 12, 12, 10, 14, 6, 8, 8, 5])[0]
     pad = rng.randrange(0, 40) if size is None else None
 
     def fit(build):
@@ -128,6 +128,14 @@ def frame(rng, target, kind=None, size=None):
                         b'{"a":1}{"b":2}', b'nul', b'{"parameters":{"id":1}} x', b'{"method":"org.example.Ping"}x',
                         b'"\\x"', b'{"parameters":{"id":01}}', b'   ', b'\t'])
         return (s, kind)
+    if kind == "near_blank":
+        # a valid document next to bytes that look like white space but are not JSON white space
+        # (form feed, vertical tab, NBSP, line separator, BOM, DEL, unit separator): not a JSON text
+        f, _ = frame(rng, target, kind="valid")
+        nb = [b"\x0c", b"\x0b", b"\xc2\xa0", b"\xe2\x80\xa8", b"\xef\xbb\xbf", b"\x7f", b"\x1f", b"\xa0", b"\x85"]
+        pre = rng.choice(nb) if rng.random() < 0.6 else b""
+        post = rng.choice(nb) if (not pre or rng.random() < 0.5) else b""
+        return (pre + f + post, kind)
     if kind == "garbage":
         n = rng.randrange(1, 24)
         return (bytes(rng.randrange(1, 256) for _ in range(n)), kind)
